@@ -12,12 +12,53 @@
 #include <micm/solver/solver_builder.hpp>
 
 #include <cstring>
+#include <optional>
 
 using vio::Out;
 using vio::Toks;
 
+// the documented error of each injected condition, by the enumeration member the documentation names
+static std::optional<std::error_code> documented(int fault)
+{
+  switch (fault)
+  {
+    case 1: return make_error_code(MicmSolverBuilderErrc::MissingChemicalSystem);
+    case 2: return make_error_code(MicmSolverBuilderErrc::MissingReactions);
+    case 3: return make_error_code(MicmSolverBuilderErrc::MissingChemicalSpecies);
+    case 4: return make_error_code(MicmProcessSetErrc::ReactantDoesNotExist);
+    case 5: return make_error_code(MicmProcessSetErrc::ProductDoesNotExist);
+    case 6: return make_error_code(MicmSolverBuilderErrc::UnusedSpecies);
+    case 7: return make_error_code(MicmStateErrc::UnknownSpecies);
+    case 8:
+    case 9: return make_error_code(MicmStateErrc::IncorrectNumberOfConcentrationValuesForMultiGridcellState);
+    case 10: return make_error_code(MicmStateErrc::UnknownRateConstantParameter);
+    case 11:
+    case 12:
+    case 24: return make_error_code(MicmStateErrc::IncorrectNumberOfCustomRateParameterValuesForMultiGridcellState);
+    case 13: return make_error_code(MicmStateErrc::IncorrectNumberOfCustomRateParameterValues);
+    case 14: return make_error_code(MicmProcessErrc::TooManyReactantsForSurfaceReaction);
+    case 15: return make_error_code(MicmSpeciesErrc::PropertyNotFound);
+    case 16:
+    case 21:
+    case 27: return make_error_code(MicmMatrixErrc::RowSizeMismatch);
+    case 17:
+    case 22: return make_error_code(MicmMatrixErrc::InvalidVector);
+    case 18:
+    case 23: return make_error_code(MicmMatrixErrc::ElementOutOfRange);
+    case 19: return make_error_code(MicmMatrixErrc::ZeroElementAccess);
+    case 20: return make_error_code(MicmMatrixErrc::MissingBlockIndex);
+    case 28: return make_error_code(MicmSolverBuilderErrc::MissingReactions);
+    default: return std::nullopt;   // 25, 26: valid configurations
+  }
+}
+
+static std::error_code last_error;
+static bool last_threw_system_error = false;
+
 static std::string describe(const std::function<void()>& f)
 {
+  last_threw_system_error = false;
+  last_error = std::error_code();
   try
   {
     f();
@@ -25,6 +66,8 @@ static std::string describe(const std::function<void()>& f)
   }
   catch (const std::system_error& e)
   {
+    last_threw_system_error = true;
+    last_error = e.code();
     std::string cat = e.code().category().name();
     for (auto& ch : cat)
       if (ch == ' ')
@@ -170,10 +213,24 @@ static void err_case(Toks& tk, Out& out, Params params)
               Phase g2{ std::vector<Species>{ a, b, c, m } };
               make_builder().SetSystem(System(SystemParameters{ .gas_phase_ = g2 })).SetReactions(reactions).Build();
             });
+      case 27:
+        // ragged table: the first row has the right length, a later one is shorter
+        return describe([&] { state.UnsafelySetCustomRateParameters({ { 1.0, 2.0 }, { 3.0 } }); });
+      case 28:
+        return describe(
+            [&]
+            {
+              // a builder that is re-used: the reactions are set, then replaced by an empty list
+              auto bld = make_builder();
+              bld.SetSystem(System(SystemParameters{ .gas_phase_ = gas })).SetReactions(reactions);
+              bld.SetReactions({});
+              bld.Build();
+            });
       default: return "UNKNOWN_FAULT";
     }
   };
 
+  bool state_modified = false;
   auto run_history = [&](bool with_fault, std::string& fault_outcome, std::string& hist) -> std::vector<double>
   {
     auto solver = make_builder().SetSystem(System(SystemParameters{ .gas_phase_ = gas })).SetReactions(reactions).Build();
@@ -200,8 +257,20 @@ static void err_case(Toks& tk, Out& out, Params params)
       {
         std::vector<double> before = state.variables_.AsVector(), before_p = state.custom_rate_parameters_.AsVector();
         fault_outcome = inject(solver, state);
+        {
+          auto want = documented(fault);
+          const bool ok = want.has_value() ? (last_threw_system_error && last_error == *want)
+                                           : (fault_outcome == "NOERROR");
+          if (!ok)
+            fault_outcome += " ORACLE_NOT_THE_DOCUMENTED_ERROR";
+        }
         if (before != state.variables_.AsVector() || before_p != state.custom_rate_parameters_.AsVector())
-          fault_outcome += " ORACLE_REJECTED_CALL_MODIFIED_THE_STATE";
+        {
+          // allowed by the property (it asks for the documented error, no memory corruption and usable objects):
+          // noted, and the bit-for-bit comparison with the fault-free history is then not applicable
+          fault_outcome += " NOTE_REJECTED_CALL_MODIFIED_THE_STATE";
+          state_modified = true;
+        }
       }
       if (k < ops.size())
         ops[k]();
@@ -217,7 +286,14 @@ static void err_case(Toks& tk, Out& out, Params params)
   auto without = run_history(false, f0, h0);
   out.tok("F:" + f1);
   out.tok("H:" + h1);
-  if (h1 != h0 || with.size() != without.size() || std::memcmp(with.data(), without.data(), with.size() * sizeof(double)) != 0)
+  // usable afterwards: the history's own calls behave as in the fault-free history; when the rejected call left the
+  // State as it was, the results are bit-identical (anything else means the call damaged something unseen)
+  bool finite = true;
+  for (double v : with)
+    if (!std::isfinite(v))
+      finite = false;
+  if (h1 != h0 || !finite || with.size() != without.size() ||
+      (!state_modified && std::memcmp(with.data(), without.data(), with.size() * sizeof(double)) != 0))
     out.tok("ORACLE_OBJECTS_NOT_USABLE_AFTER_ERROR");
 }
 
